@@ -66,7 +66,7 @@ GenLeaf(c) ==
     LET k == PickW(<< <<3, "lit">>, <<4, "var">>, <<1, "fld">>, <<1, "idx">>, <<IF c.ptrs # {} THEN 2 ELSE 0, "deref">>,
                       <<IF c.sls # {} THEN 2 ELSE 0, "sl">>, <<IF c.maps # {} THEN 2 ELSE 0, "mget">>,
                       <<IF c.maps # {} THEN 1 ELSE 0, "mlen">>, <<IF c.strs # {} THEN 1 ELSE 0, "slen">>,
-                      <<IF c.sts # {"t"} THEN 3 ELSE 0, "ufld">>, <<IF c.qs # {} THEN 2 ELSE 0, "qfld">>, <<1, "usum">>,
+                      <<IF c.sts # {"t"} THEN 3 ELSE 0, "ufld">>, <<IF c.qs # {} THEN 2 ELSE 0, "qfld">>, <<1, "usum">>, <<1, "utag">>,
                       <<IF c.consts # {} THEN 2 ELSE 0, "cvar">>, <<IF c.chs # {} THEN 1 ELSE 0, "chlen">>,
                       <<IF c.sls # {} THEN 1 ELSE 0, "vspread">> >>) IN
     CASE k = "lit" -> Lit(Pick(0..5))
@@ -76,6 +76,9 @@ GenLeaf(c) ==
       [] k = "qfld"  -> [k |-> "qfld", p |-> Pick(c.qs), f |-> Pick({"a", "b"})]
       [] k = "usum"  -> IF c.qs # {} /\ Pick(1..3) = 1 THEN [k |-> "usum", via |-> "ptr", s |-> Pick(c.qs)]
                         ELSE [k |-> "usum", via |-> "val", s |-> Pick(c.sts)]
+      [] k = "utag"  -> IF c.qs # {} /\ Pick(1..3) = 1
+                        THEN [k |-> "utag", m |-> Pick({"tag", "ptag"}), via |-> "ptr", s |-> Pick(c.qs), e |-> Lit(Pick(0..5))]
+                        ELSE [k |-> "utag", m |-> Pick({"tag", "ptag"}), via |-> "val", s |-> Pick(c.sts), e |-> Lit(Pick(0..5))]
       [] k = "cvar"  -> LET kc == Pick(c.consts) IN [k |-> "cvar", x |-> kc[1], v |-> kc[2]]
       [] k = "chlen" -> [k |-> "chlen", s |-> Pick(c.chs)]
       [] k = "vspread" -> [k |-> "vspread", s |-> Pick(c.sls)]
